@@ -12,6 +12,8 @@ this module writes.
   truth   : {image file name: ndarray}   IU2: (N,P) uint16;  C*8: (N,P,2) uint32 bit patterns
   extents : {image file name: [(rec_start, data_start, rec_end), ...]} one per line
 """
+import json
+import os
 import random
 import struct
 
@@ -132,7 +134,46 @@ def leader(n_att=3, n_ch=2, map_proj=True, fac_len=(100, 200, 300, 400)):
     f5 = _rec(5000)
     _put(f5, F5_PRF_SWITCHING_FLAG, "0")
     parts.append(f5)
+    _fill_leader(parts, n_att, n_ch, map_proj)
     return b"".join(bytes(p) for p in parts)
+
+
+def _leader_layout():
+    global LEADER_LAYOUT
+    if LEADER_LAYOUT == "unread":
+        try:
+            with open(os.path.join(os.path.dirname(os.path.abspath(__file__)),
+                                   "leader_layout.json")) as f:
+                LEADER_LAYOUT = json.load(f)
+        except FileNotFoundError:
+            LEADER_LAYOUT = None
+    return LEADER_LAYOUT
+
+
+LEADER_LAYOUT = "unread"
+
+
+def _fill_leader(parts, n_att, n_ch, map_proj):
+    """every ASCII field of the leader that the synthesiser left blank gets a fixed, typed text
+    (table made once by tools/make_leader_layout.py): a record decoded as a record of another
+    kind, or fields taken from the wrong place, then show in the metadata groups"""
+    layout = _leader_layout()
+    if not layout:
+        return
+    names = ["file_descriptor", "dataset_summary"] + (["map_projection"] if map_proj else []) \
+        + ["platform_position", "attitude", "radiometric_data", "data_quality_summary",
+           "fac1", "fac2", "fac3", "fac4", "fac5"]
+    for name, buf in zip(names, parts):
+        for off, w, text, inst, path in layout.get(name, ()):
+            if name == "attitude" and "data_points" in path and inst >= n_att:
+                continue
+            if "nominal_relative_radiometric_calibration_uncertainty" in path and inst >= n_ch:
+                continue
+            if off + w <= len(buf) and not bytes(buf[off:off + w]).strip():
+                buf[off:off + w] = text.encode("ascii")
+        if name in ("fac1", "fac2", "fac3", "fac4") and len(buf) > 70:
+            t = ("FACILITY DATA " + name[-1]).encode()
+            buf[66:66 + min(len(t), len(buf) - 66)] = t[:len(buf) - 66]
 
 
 def leader_boundaries(n_att=3, n_ch=2, map_proj=True, fac_len=(100, 200, 300, 400)):
